@@ -11,6 +11,8 @@ interleaving of program output and engine polling is imposed, never timed.
   C            create (truncate) every streamed file           → ack "ok"
   B key n      make the first n bytes of files[key] visible    → ack "ok"
   X code       exit with `code` (no ack; the harness waits for the process to end)
+  K sig        die from signal `sig` sent to itself (SIGKILL/SIGSEGV/SIGTERM: a death infretis did not cause;
+               return code -sig; no ack)
 SIGTERM keeps its default action: the process terminates (return code -15).
 """
 import json
@@ -55,5 +57,15 @@ def serve(names):
             for fh in out.values():
                 fh.flush()
             os._exit(int(t[1]))
+        elif t[0] == "K":
+            import signal
+            import time
+            for fh in out.values():
+                fh.flush()
+            sig = int(t[1])
+            signal.signal(sig, signal.SIG_DFL) if sig != signal.SIGKILL else None
+            os.kill(os.getpid(), sig)
+            time.sleep(60)            # not reached: the signal is delivered before kill() returns
+            os._exit(98)
         ack.write("ok\n")
         ack.flush()
